@@ -17,7 +17,8 @@ PARTIAL = ["for f64/f32 the arithmetic fact 'the O(1) guess lands inside the axi
            "under the standard model of fp arithmetic without overflow/underflow for axes of fewer than 1/(7u+6u^2) points "
            "(C11_guess_rounding, C11_float_stdmodel; the bound on n is needed in that model: C11_guess_rounding_sharp); longer axes and "
            "under/overflowing intermediates are exercised by this run only — C11_bracket then covers every guess that is an index",
-           "i32 axes: covered by C11_bracket (any linear order, any guess); i64 is run through the protocol (model at Z64), i32 is not"]
+           "i32 axes: covered by C11_bracket (any linear order, any guess); i64 and i32 are both run through the protocol (model at Z64; the i32 inputs "
+           "are chosen so that no intermediate leaves the i32 range, where the two integer types agree)"]
 ASSUMPTIONS = ["axis length < 2^64 (usize)", "non-NaN f64 comparison is a linear order"]
 
 
